@@ -68,6 +68,7 @@ package types
 //@   assigns vals.totalVotingPower
 //@   ensures sum: result == totalPower(vals, len(vals.Validators))
 //@   ensures cached: result == vals.totalVotingPower && 0 <= result && result <= MaxTotalVotingPower
+//@   ensures wf: wfCached(vals)
 
 // ---- C07: commit verification ----
 
@@ -80,6 +81,8 @@ package types
 //@   | ite(n <= 0, 0, tally(vals, commit, chainID, n-1) + ite(goodSig(vals, commit, chainID, n-1), vals.Validators[n-1].VotingPower, 0))
 
 //@ func ValidatorSet.VerifyCommit
+//@   assigns vals.totalVotingPower
+//@   ensures wf: wfCached(vals)
 //@   requires wfPowers(vals)
 //@   requires wfCached(vals)
 //@   ensures size: result == nil ==> len(commit.Signatures) == len(vals.Validators)
@@ -90,6 +93,8 @@ package types
 //@   loop 1 invariant acc: talliedVotingPower == tally(vals, commit, chainID, rangeindex + 1)
 
 //@ func ValidatorSet.VerifyCommitLight
+//@   assigns vals.totalVotingPower
+//@   ensures wf: wfCached(vals)
 //@   requires wfPowers(vals)
 //@   requires wfCached(vals)
 //@   ensures size: result == nil ==> len(commit.Signatures) == len(vals.Validators)
@@ -125,6 +130,8 @@ package types
 //@   | forall(a, 0, n, forall(b, 0, n, known(vals, commit, a) && known(vals, commit, b) && a != b ==> vidx(vals, commit, a) != vidx(vals, commit, b)))
 
 //@ func ValidatorSet.VerifyCommitLightTrusting
+//@   assigns vals.totalVotingPower
+//@   ensures wf: wfCached(vals)
 //@   requires len(commit.Signatures) <= 2147483647
 //@   requires wfPowers(vals)
 //@   requires wfCached(vals)
@@ -153,3 +160,21 @@ package types
 //@   ensures idx: result == nil ==> 0 <= tp.Proof.Index && tp.Proof.Index < tp.Proof.Total
 //@   ensures leaf: result == nil ==> tp.Proof.LeafHash == leafH(tmhashSum(tp.Data))
 //@   ensures path: result == nil ==> dataHash == pathRoot(tp.Proof.Index, tp.Proof.Total, tp.Proof.LeafHash, tp.Proof.Aunts)
+
+// ---- protobuf conversions used by other packages: ASSUMED not to touch existing state ----
+//@ func EvidenceToProto
+//@   trusted
+//@   assigns nothing
+
+// ASSUMED: the map key of a block id (string of its protobuf encoding) is computed without touching existing state.
+//@ func BlockID.Key
+//@   trusted
+//@   assigns nothing
+
+//@ func NewDuplicateVoteEvidence
+//@   requires wf: valSet != nil ==> (wfPowers(valSet) && wfCached(valSet))
+//@   assigns valSet.totalVotingPower
+//@   ensures wf: valSet != nil ==> wfCached(valSet)
+//@   ensures fields: result != nil ==> (result.Timestamp == blockTime && result.TotalVotingPower == totalPower(valSet, len(valSet.Validators)) &&
+//@     | ((result.VoteA == vote1 && result.VoteB == vote2) || (result.VoteA == vote2 && result.VoteB == vote1)))
+//@   ensures power: result != nil ==> (idxOf(valSet, vote1.ValidatorAddress) >= 0 && result.ValidatorPower == valSet.Validators[idxOf(valSet, vote1.ValidatorAddress)].VotingPower)
